@@ -254,7 +254,13 @@ Begin(fm) ==
 (* the library types a form mentions that the session has not imported yet *)
 NewLib(fm, tb) == {d \in (SeqSet(fm.ds) \cap Known) \cup (IF fm.k = "con" /\ fm.t \in Known THEN {fm.t} ELSE {}) : ~Imported(tb, d)}
 
+(* a redefinition of a (name, signature) of which an earlier redefinition was refused *)
+SecondTry(fm) == /\ Redefines(fm, ref)
+                 /\ \E i \in DOMAIN hist : /\ ~hist[i].ok /\ hist[i].dlg /\ hist[i].f.ans = "n"
+                                           /\ hist[i].f.n = fm.n /\ Sig(hist[i].f) = Sig(fm)
+
 Item(ok) == [f |-> cur, ok |-> ok, dlg |-> dlg, cls |-> IF ok THEN "" ELSE Class(cur, ref), lib |-> NewLib(cur, ref),
+             re2 |-> SecondTry(cur),
              o |-> IF ok /\ cur.k = "use" THEN UseOut(cur, tab) ELSE <<>>]
 
 Accepted == WellTyped(cur, tab) /\ ~(dlg /\ cur.ans = "n")
